@@ -285,6 +285,24 @@ theorem width_synopsis_unless_forced (d : UDecl) (t o m l : List Entry) (happ : 
       (by omega) (by omega) p hp hf
     omega
 
+/-- **Lines that do hold a never-fitting word**: `formatPaddedCores` lists every line's length and its
+*core* — the length the line had when the first never-fitting word was put on it (its whole length
+if there is none; behind such a word only further never-fitting words can follow, because the
+remaining-space counter is negative from then on).  The lengths are those of the text, every core is
+a prefix length of its line, and every core keeps within the width: a line exceeds it only by the
+never-fitting words at its end. -/
+theorem width_up_to_forcing_words (col : Nat) (text : Str) (leftPad maxW : Int) (h0 : 0 ≤ leftPad)
+    (h1 : leftPad < maxW) (hnl : '\n' ∉ text) :
+    (formatPaddedCores col text leftPad maxW).map (·.1) = lineLens col (formatPadded col text leftPad maxW) ∧
+    ∀ p ∈ formatPaddedCores col text leftPad maxW, p.2 ≤ p.1 ∧ (p.2 : Int) ≤ max (col : Int) maxW := by
+  refine ⟨formatPaddedCores_lens col text leftPad maxW hnl, fun p hp => ⟨?_, formatPaddedCores_width col text leftPad maxW h0 h1 p hp⟩⟩
+  unfold formatPaddedCores at hp
+  simp only at hp
+  split at hp <;> exact fpCores_core_le _ _ _ _ _ _ _ (by simp) p hp
+
+example : fpCores 4 12 8 (some 4) ["aa".toList, "bb".toList, "cccccccccccccc".toList, "ddddddddddddddd".toList, "e".toList] 0 none =
+    [(40, 9), (5, 5)] := by decide
+
 example : fpLines 4 12 8 (some 4) ["aa".toList, "bb".toList, "cccccccccccccc".toList, "dd".toList] 0 false =
     [(24, true), (6, false)] := by decide
 example : lineLens 0 (fpGo 4 12 8 (some 4) ["aa".toList, "bb".toList, "cccccccccccccc".toList, "dd".toList]) =
